@@ -18,7 +18,7 @@ RULE = ('Generated case (refs/c05_tankgen.py) = reservoir feeding 1-4 junctions 
         'step 900-7200 s, plus 1-6 simple controls: tank level/pressure/head above/below a threshold (also exactly at '
         'min/max level), hysteresis pairs, pairs of thresholds 0-5 cm apart (both crossed within one step), conflicting '
         'pairs with explicit priorities 0-6, junction-pressure controls and pressure hysteresis pairs; targets: feed '
-        'pump/pipe, tank links (pipes, CV pipes, pumps), other pipes (status), valves (status or setting). Plus 8 (thorough '
+        'pump/pipe, tank links (pipes, CV pipes, pumps), other pipes (status), valves (status or setting; with a valve present, tank level -> valve setting controls are drawn three times as often as any other kind). Plus 8 (thorough '
         '16) enumerated cases in which a junction pressure ramps by ~2 cm per row across 3-decimal thresholds. '
         'Non-trivial = converged run in which at least one control changes its truth value between two reported rows; '
         'distinct = SHA-1 of the case.')
